@@ -118,6 +118,18 @@ def gen_code_programs():
     }
     for name, st in S.items():
         progs.append((f'stmt[{name}]', pred_program(st)))
+    # definition kind x update kind: how a variable was first defined decides what "the previous value" is
+    DEF = {'plain': ['V1 = THETA(1)'], 'lif': ['IF (APGR.LT.7) V1 = THETA(1)'],
+           'blk_else': ['IF (APGR.LT.3) THEN', 'V1 = THETA(1)', 'ELSE', 'V1 = THETA(2)', 'ENDIF'],
+           'blk_noelse': ['IF (APGR.LT.3) THEN', 'V1 = THETA(1)', 'ENDIF'],
+           'blk_elseif': ['IF (APGR.LT.3) THEN', 'V1 = THETA(1)', 'ELSEIF (APGR.LT.6) THEN', 'V1 = THETA(2)', 'ELSE',
+                          'V1 = THETA(3)', 'ENDIF']}
+    UPD = {'lif': ['IF (WGT.GT.70) V1 = V1*2'], 'blk_noelse': ['IF (WGT.GT.70) THEN', 'V1 = V1 + WGT', 'ENDIF'],
+           'blk_elseif_noelse': ['IF (WGT.GT.70) THEN', 'V1 = 2*V1', 'ELSEIF (WGT.GT.50) THEN', 'V1 = 3*V1', 'ENDIF'],
+           'use': ['V2 = V1*WGT']}
+    for (dn, ds), (un, us) in itertools.product(DEF.items(), UPD.items()):
+        last = 'V2' if un == 'use' else 'V1'
+        progs.append((f'defupd[{dn},{un}]', pred_program(ds + us + [f'Y = {last} + EPS(1)'])))
     return progs
 
 
